@@ -3,7 +3,9 @@ package httpgrpc
 import (
 	//lint:ignore SA1019 we use the old v1 package because
 	//  we need to support older generated messages
+	"github.com/golang/protobuf/jsonpb"
 	"github.com/golang/protobuf/proto"
+	"github.com/jhump/protoreflect/dynamic"
 	"google.golang.org/grpc/encoding"
 	"google.golang.org/protobuf/encoding/protojson"
 )
@@ -26,12 +28,20 @@ func init() {
 type jsonCodec struct{}
 
 func (c jsonCodec) Marshal(v interface{}) ([]byte, error) {
+	if dm, ok := v.(*dynamic.Message); ok {
+		// a dynamic message is not a generated struct: wrapped as a legacy
+		// message it would look like a message without any fields
+		return dm.MarshalJSONPB(&jsonpb.Marshaler{EnumsAsInts: true, EmitDefaults: true})
+	}
 	msg := proto.MessageV2(v.(proto.Message))
 	bb, err := grpcJsonMarshaler.Marshal(msg)
 	return bb, err
 }
 
 func (c jsonCodec) Unmarshal(data []byte, v interface{}) error {
+	if dm, ok := v.(*dynamic.Message); ok {
+		return dm.UnmarshalJSONPB(&jsonpb.Unmarshaler{AllowUnknownFields: true}, data)
+	}
 	msg := proto.MessageV2(v.(proto.Message))
 	return grpcJsonUnmarshaler.Unmarshal(data, msg)
 }
